@@ -2,6 +2,7 @@
 from .. import AnalysisBroken
 from ..rules import where_of
 from ..terms import head, is_const, show, strip, walk, get_arg
+from ..eff import check_pure_params
 from ._pcspec import M, check_against_spec, is_row_serializer, is_vec, sep_ok, vec_with_param0
 
 CLAIMED = True
@@ -27,6 +28,9 @@ def run(r):
               "numpy.intersect1d(u, v, return_indices=True) -> (common, positions in u, positions in v) for duplicate-free u, v; assume_unique=True is redundant on numpy.unique outputs",
               "DataFrame.apply(f, axis=1) applies f to every row in order; DataFrame.fillna(c) replaces missing cells only",
               "exact arithmetic (no floating point)")
+    # purity first: cheap, robust, and a recorded violation takes precedence over a later 'cannot decide'
+    check_pure_params(r, "C02-PURE", [M + "pc_n", M + "pc", M + "pc_joint", "pyrepseq.util.convert_tuple_to_dataframe_if_necessary"])
+    rep.floor("C02-PURE", 6)
     check_against_spec(r, "C02-RF", "pc_n", "pc_n(n) == sum n_i(n_i - 1) / (N (N - 1))", vec=vec_with_param0)
     check_against_spec(r, "C02-RF", "pc", "pc one-sample == coinciding ordered pairs / N(N-1); two-sample == coinciding cross pairs / (N1 N2); tables serialised row-wise", vec=is_vec)
     check_against_spec(r, "C02-JOINT", "pc_joint", "pc_joint == pc of the row serialisation of the selected columns, same token for both tables", vec=is_vec)
